@@ -4,16 +4,26 @@
 use crate::core::Ctx;
 use std::path::PathBuf;
 
+pub mod c18;
+pub mod c20;
+pub mod c24;
+pub mod c26;
 pub mod c28;
 
 pub type RunFn = fn(Ctx, Option<PathBuf>) -> i32;
 
-pub const REGISTRY: &[(&str, RunFn)] = &[("C28", c28::run)];
+pub const REGISTRY: &[(&str, RunFn)] = &[("C18", c18::run), ("C20", c20::run), ("C24", c24::run), ("C26", c26::run), ("C28", c28::run)];
 
 /// Hidden subcommands (`lv __xyz ...`) used by checks that need a fresh
 /// process linking the lalrpop library.
-pub fn hidden_subcommand(_name: &str, _args: &[String]) -> Option<i32> {
-    None
+pub fn hidden_subcommand(name: &str, args: &[String]) -> Option<i32> {
+    match name {
+        // lv __gtdump <seed> <n> <dir>: write n template grammars (debugging aid for grammar_text)
+        "__gtdump" => Some(crate::grammar_text::dump_main(args)),
+        // lv __procdir <dir> <outdir> [--comments] [--report]: Configuration::process_dir in a fresh process (C20)
+        "__procdir" => Some(c20::procdir_main(args)),
+        _ => None,
+    }
 }
 
 /// Shared boilerplate: load a replay file or fail with exit 2.
